@@ -1489,6 +1489,58 @@ def run(index, rep, tier):
                               "%s calls `%s` with a name taken from the document; the method raises ValueError when the name is already in `%s`, and nothing between the tokenizer and this call tests for that or catches it - a document that defines the same name twice is answered with a bare ValueError from inside the data model instead of a data-parse error pointing at the line" % (fi.qualname, norm(c)[:60], "/".join(sorted(conts))))
         rep.floor("R20.22", "reader calls into duplicate-refusing methods", 2, n22)
 
+    # ---- R20.23 a token that becomes a label was really read
+    with rep.section("R20.23"):
+        rep.rule("R20.23", "a token that becomes a taxon label was really read: next_token() answers None at the end of the stream, so where the NEXUS / Newick readers hand a token to require_taxon / new_taxon / get_taxon / add_translate_token it comes from require_next_token() (which raises the end-of-stream parse error) or a test of the token for None / emptiness lies between the read and the use - a TRANSLATE statement cut short otherwise creates a taxon labelled None and returns normally")
+        n23 = 0
+        SINKS = {"require_taxon": ("label", 0), "new_taxon": ("label", 0), "get_taxon": ("label", 0), "add_translate_token": (None, 0)}
+        for m in ("dendropy.dataio.nexusreader", "dendropy.dataio.newickreader", "dendropy.dataio.nexusyielder", "dendropy.dataio.newickyielder"):
+            for fi in index.functions_in_module(m):
+                g = None
+                for c in calls_in(fi.node):
+                    if call_name(c) not in SINKS or not isinstance(c.func, ast.Attribute):
+                        continue
+                    kwn, pos = SINKS[call_name(c)]
+                    argv = []
+                    if kwn and get_kwarg(c, kwn) is not None:
+                        argv.append(get_kwarg(c, kwn))
+                    elif len(c.args) > pos:
+                        argv.append(c.args[pos])
+                    if call_name(c) == "add_translate_token" and len(c.args) > 0:
+                        argv = [c.args[0]]
+                    for a in argv:
+                        if not isinstance(a, ast.Name):
+                            continue
+                        g = g or cfg_of(fi)
+                        nd = node_of_ast(g, c)
+                        if nd is None:
+                            continue
+                        soft = [d for d in g.nodes if isinstance(d.ast, ast.Assign) and any(isinstance(t, ast.Name) and t.id == a.id for t in d.ast.targets) and isinstance(d.ast.value, ast.Call)
+                                and call_name(d.ast.value) in ("next_token", "next_token_ucase") and "tokenizer" in norm(d.ast.value.func.value)]
+                        anyread = [d for d in g.nodes if isinstance(d.ast, ast.Assign) and any(isinstance(t, ast.Name) and t.id == a.id for t in d.ast.targets) and isinstance(d.ast.value, ast.Call)
+                                   and "next_token" in call_name(d.ast.value)]
+                        if anyread:
+                            n23 += 1
+                        if not soft:
+                            if anyread:
+                                rep.ob("R20.23", fn_where(fi, c), "%s: %s is read with require_next_token() before %s" % (fi.name, a.id, call_name(c)), True)
+                            continue
+
+                        def tested(s, nm=a.id):
+                            if s.kind != "test":
+                                return False
+                            t = s.ast
+                            if isinstance(t, ast.Name) and t.id == nm:
+                                return True
+                            return isinstance(t, ast.Compare) and len(t.ops) == 1 and isinstance(t.ops[0], (ast.Is, ast.IsNot)) and norm(t.left) == nm and is_none(t.comparators[0])
+
+                        def redefined(s, nm=a.id):
+                            return isinstance(s.ast, ast.Assign) and any(isinstance(t, ast.Name) and t.id == nm for t in s.ast.targets)
+                        bad = [d for d in soft if g.can_reach(d, lambda x: x is nd, avoid=lambda x: tested(x) or redefined(x), follow_exc=False) is not None]
+                        rep.check(not bad, "R20.23", fi.qualname, "`%s` may be None when it reaches %s" % (a.id, call_name(c)), fn_where(fi, c), "%s: %s is required or tested before %s" % (fi.name, a.id, call_name(c)),
+                                  "%s reads `%s` with `%s` - None at the end of the stream - and hands it to `%s` without a test: a document cut off inside the statement makes the reader create (or look up) a taxon whose label is None and carry on, instead of raising the end-of-stream parse error that require_next_token() gives" % (fi.qualname, a.id, norm(bad[0].ast.value)[:50] if bad else "", norm(c)[:60]))
+        rep.floor("R20.23", "tokens used as labels", 2, n23)
+
 
 def _branch_calls_raiser(cfg, n):
     for lab, t in n.succ:
